@@ -15,7 +15,10 @@ from harness import tlc
 def _cfg_text(spec, constants, constraint="Judge", post="Post", extra_lines=()):
     lines = ["SPECIFICATION " + spec, "CONSTANTS"]
     for k, v in constants.items():
-        lines.append("  %s = %s" % (k, _tla(v)))
+        if isinstance(v, tuple) and len(v) == 2 and v[0] == "<-":
+            lines.append("  %s <- %s" % (k, v[1]))
+        else:
+            lines.append("  %s = %s" % (k, _tla(v)))
     lines.append("CONSTRAINT " + constraint)
     lines.append("POSTCONDITION " + post)
     lines.extend(extra_lines)
@@ -57,7 +60,7 @@ def validate(module, traces, constants, *, work, jobs=16, chunk=400, timeout=900
     if not traces:
         return {"accepted": [], "rejected": {}, "failed": {}, "states": 0, "transitions": 0}
     os.makedirs(work, exist_ok=True)
-    cfgp = os.path.join(work, module + "_%s.cfg" % abs(hash(json.dumps(constants, sort_keys=True, default=str))))
+    cfgp = os.path.join(work, os.path.basename(module).replace(".tla", "") + "_%s.cfg" % abs(hash(json.dumps(constants, sort_keys=True, default=str))))
     with open(cfgp, "w") as f:
         f.write(_cfg_text(spec, constants))
     nchunks = max(1, min(jobs * 2, (len(traces) + chunk - 1) // chunk))
@@ -67,8 +70,9 @@ def validate(module, traces, constants, *, work, jobs=16, chunk=400, timeout=900
         part = traces[i * size:(i + 1) * size]
         if not part:
             continue
-        tf = os.path.join(work, "%s_in_%d.json" % (module, i))
-        of = os.path.join(work, "%s_out_%d.json" % (module, i))
+        mb = os.path.basename(module).replace(".tla", "")
+        tf = os.path.join(work, "%s_in_%d.json" % (mb, i))
+        of = os.path.join(work, "%s_out_%d.json" % (mb, i))
         if os.path.exists(of):
             os.remove(of)
         with open(tf, "w") as f:
